@@ -4,7 +4,7 @@ def reducers : List (List String × String) := [(["(", "or_expr", ")"], "_wrap_c
 def unreducedTokens : List String := ["(", ")", "and", "or", "not", "string"]
 def keywords : List String := ["and", "not", "or"]
 def quotePairs : List (List String) := [["\"", "\""], ["'", "'"]]
-def tokenizeRe : String := "\u000a    (?:\u000a        [^\\s\"']        # an ordinary character\u000a      | \"[^\"]*\"         # a double-quoted string, whitespace included\u000a      | '[^']*'         # a single-quoted string, whitespace included\u000a    )+\u000a"
+def tokenizeRe : String := "\\s+"
 def registeredKinds : List String := ["<None>", "role", "rule"]
 def extensionKinds : List String := ["http", "https"]
 def optEnforceScope : Bool := true
